@@ -36,6 +36,14 @@ impl Submissions {
         // Grab the submission lock.
         let submissions_guard = lock(&shared.submissions_lock);
 
+        // If the ring is dropped nothing will submit this submission to the
+        // kernel, let the caller deal with it as if the queue is full (e.g.
+        // `AsyncFd` closes its descriptor synchronously).
+        if shared.ring_dropped.load(Ordering::Relaxed) {
+            unlock(submissions_guard);
+            return Err(QueueFull);
+        }
+
         // NOTE: need to load the tail and head values again as they could have
         // changed since we last loaded them.
         // NOTE: we MUST load the head before the tail to ensure the head is
